@@ -13,11 +13,15 @@ CLAIMED = {
          "arbitrary channel state), XDS demultiplexer / separator / decoder steps at the buffer limit and terminator, caption rendering and text/export write layer on exact-size canvases and buffers "
          "(selected C08/C09/C16 obligations). trigger.c, object enhancement in vbi_fetch_vt_page, image exporters, search and whole-decoder composition are outside (see evidence 'outside' and DESIGN 0.3).", "0.3 C01"),
  "C02": ("Page links (X/27/0..3) produced by a reference encoder for all page/subcode/magazine values are stored exactly; the row parity gate copies a good row byte-exactly and never lets a bad row replace a "
-         "cached one; header field decoding (page number, subcode, national and control bits) equals an independent Hamming decode. Assembly across packets, Level-1 formatting and character sets are "
-         "claimed only as far as the listed obligations go.", "0.3 / 5 C02"),
+         "cached one; header field decoding (page number, subcode, national and control bits) equals an independent Hamming decode; Level-1 formatting of symbolic rows against a transcription of EN 300 706 12.2 "
+         "Table 26 incl. start-of-row defaults; character set designation; sub-page keying and wildcard fetch on the real cache (SEQ-3); multi-packet ASSEMBLY through the real vbi_decode_teletext (page in progress + "
+         "header + next header of its own magazine on a grid of magazines, page numbers, serial/parallel mode, erase flag, cache hit/miss; rows, sub-code and header text symbolic): stored exactly once with its number, "
+         "sub-code and rows, exactly one page event, never later than its own magazine's next header. Symbolic control bits inside assembly runs, pages other than LOPs in assembly and the channel-switch heuristic are outside.", "0.3 C02"),
  "C03": ("All Hamming 8/4, 24/18, parity and bit-reversal primitives equal reference codes written from the parity equations for every input, every single error is corrected and every double error rejected; "
-         "for each consumer (page link, MOT, POP, X/27, X/28-29, AIT) one symbolic single-bit error anywhere in a clean protected byte/triplet leaves exactly the same decoder state as the clean packet; "
-         "an uncorrectable address changes nothing; an uncorrectable header subcode/control byte never lets the page be assembled; a row with a parity error never replaces a good row; X/26 out of sequence stores nothing.", "0.3 / 5 C03"),
+         "for each consumer (page link, MOT, POP, X/27, AIT) one symbolic single-bit error anywhere in a clean protected byte/triplet leaves exactly the same decoder state as the clean packet; "
+         "an uncorrectable header subcode/control byte never lets the page be assembled; a row with a parity error never replaces a good row (plain and with X/26 overrides); through the dispatcher with pages in progress "
+         "in two magazines an uncorrectable page number is rejected, stores nothing and abandons all pages in progress, and no X/26 triplet behind an uncorrectable one is stored. Thorough tier: uncorrectable address "
+         "changes nothing, X/26 out of sequence stores nothing.", "0.3 C03"),
  "C09": ("One inductive step of the XDS demultiplexer (xds_demux.c) and of the service decoder's own separator (caption.c, real struct caption) from an arbitrary state satisfying a stated invariant, "
          "for every byte pair class (first byte case-split over every switch arm and its boundaries, second byte symbolic; every accepted type and every rejected/parity-damaged second byte of a header), is shown to be "
          "exactly the EIA-608 reassembly step (start/continue/content/terminator/parity error/caption interruption), to deliver iff the checksum is good and >= 1 byte with the packet's class, type, length <= 32 and bytes, "
